@@ -49,6 +49,7 @@ type accRes struct {
 	conn    net.Conn
 	c       string
 	timeout bool
+	fail    bool // a non-timeout error although the listener is open
 }
 
 // ctlListener: Accept blocks until the driver releases a result.
@@ -85,6 +86,10 @@ func (l *ctlListener) Accept() (net.Conn, error) {
 		if r.timeout {
 			l.log.Ev("AcceptTimeout", tr.M{"id": l.id})
 			return nil, &net.OpError{Op: "accept", Net: "unix", Err: timeoutErr{}}
+		}
+		if r.fail {
+			l.log.Ev("AcceptError", tr.M{"id": l.id})
+			return nil, &net.OpError{Op: "accept", Net: "unix", Err: syscall.EMFILE}
 		}
 		l.log.Ev("AcceptConn", tr.M{"id": l.id, "c": r.c})
 		return r.conn, nil
@@ -469,6 +474,15 @@ func (r *svcRunner) do(op sOp) {
 			if c := r.clients[k]; c != nil && c.state == "delivered" {
 				r.expectEnded(c)
 			}
+		}
+	case "AccErr":
+		if r.cur == nil || !r.waitFlag(&r.cur.waiting, "AccErr: serving thread is not blocked in Accept") {
+			return
+		}
+		select {
+		case r.cur.rel <- accRes{fail: true}:
+		case <-time.After(3 * time.Second):
+			r.log.Ev("OPFAIL", tr.M{"why": "AccErr: Accept did not take the failure"})
 		}
 	case "Shutdown":
 		r.log.Ev("ShutdownStart", nil)
